@@ -262,7 +262,9 @@ def check_misc(run, cx, cfg, only=None):
             okm = False
             if len(cps) == 1:
                 ce = [e for k, e in call_events(cps[0])]
-                okm = len(ce) == 1 and rp(ce[0]) == 'core::cmp::min' and ce[0]['args'][0] == ('acc',) and cps[0]['ret'] == ce[0]['result']
+                # core::cmp::min(a, b)  or the method spelling a.min(b) (Ord::min)
+                okm = len(ce) == 1 and (rp(ce[0]) == 'core::cmp::min' or (ce[0]['name'] == 'min' and ce[0].get('trait') == 'core::cmp::Ord')) \
+                    and ce[0]['args'][0] == ('acc',) and cps[0]['ret'] == ce[0]['result']
                 r = cps[0]['ret']
                 okm = okm or (r[0] == 'app' and r[1].endswith('min'))
             if not okm:
